@@ -578,12 +578,13 @@ class MailboxSet(MailboxSetInterface[MailboxData]):
                 maildir = self._layout.get_folder(name, self.delimiter)
             except FileNotFoundError as exc:
                 raise KeyError(name) from exc
-        if name in self._cache:
-            mbx = self._cache[name]
-        else:
-            path = self._layout.get_path(name, self.delimiter)
-            async with UidList.with_init(path) as uidl:
-                mailbox_id = ObjectId(uidl.global_uid)
+        path = self._layout.get_path(name, self.delimiter)
+        async with UidList.with_init(path) as uidl:
+            mailbox_id = ObjectId(uidl.global_uid)
+        mbx = self._cache.get(name)
+        if mbx is None or mbx.mailbox_id != mailbox_id:
+            # not seen before, or another session has renamed the mailbox
+            # away and created a new one under this name since
             mbx = MailboxData(mailbox_id, maildir, path)
             self._cache[name] = mbx
         return await mbx.reset()
